@@ -20,7 +20,7 @@ import time
 import traceback
 from concurrent.futures import ProcessPoolExecutor, as_completed
 
-from simkit.core import VERIF_DIR, derive
+from simkit.core import OUT_DIR, VERIF_DIR, derive
 
 NPROC = int(os.environ.get("VERIF_NPROC", "16"))
 
@@ -168,9 +168,9 @@ def shrink(camp: Campaign, scenario: dict, signature: str, violation: dict, budg
 def write_replay(camp: Campaign, signature: str, scenario: dict, detail: dict, seed: int) -> str:
     import hashlib
 
-    os.makedirs(os.path.join(VERIF_DIR, "replays"), exist_ok=True)
+    os.makedirs(os.path.join(OUT_DIR, "replays"), exist_ok=True)
     sig8 = hashlib.sha256(signature.encode()).hexdigest()[:8]
-    path = os.path.join(VERIF_DIR, "replays", f"{camp.prop}-{sig8}-{seed}.json")
+    path = os.path.join(OUT_DIR, "replays", f"{camp.prop}-{sig8}-{seed}.json")
     with open(path, "w") as f:
         json.dump({"property": camp.prop, "signature": signature, "seed": seed,
                    "scenario": scenario, "violation": detail}, f, indent=1, sort_keys=True)
@@ -303,8 +303,8 @@ def main_check(camp: Campaign, tier: str, seed: int) -> int:
         "wall_s": round(time.time() - t_start, 2),
         "violations": len(new_violations),
     }
-    os.makedirs(os.path.join(VERIF_DIR, "evidence"), exist_ok=True)
-    with open(os.path.join(VERIF_DIR, "evidence", f"{camp.prop}.json"), "w") as f:
+    os.makedirs(os.path.join(OUT_DIR, "evidence"), exist_ok=True)
+    with open(os.path.join(OUT_DIR, "evidence", f"{camp.prop}.json"), "w") as f:
         json.dump(evidence, f, indent=1, sort_keys=True, default=str)
     print(f"[{camp.prop}/{tier}] seed={seed} runs={runs_done} trials={stats.get('trials', 0)} "
           f"cover={len(nontrivial_cover)} foreign_runs={n_foreign_runs} "
